@@ -19,6 +19,7 @@ import dns.rdata
 import dns.rdataclass
 import dns.rdataset
 import dns.rdatatype
+import dns.rdtypes.txtbase
 import dns.rrset
 import dns.set
 
@@ -73,10 +74,40 @@ def record_text(rdtype, covers, c, v):
     raise ValueError("no record text for %s" % rdtype)
 
 
+# World "dyn": the model type "DYN" is an unassigned type code, FRESH for every history
+# (run-time registrations and anything cached per type code are process-global; a code never
+# used before in this interpreter is as good as a fresh interpreter).
+_DYN = {"next": 30000, "code": None}
+
+
+def fresh_dyn_code():
+    _DYN["next"] += 1
+    if _DYN["next"] > 60000:
+        raise RuntimeError("out of fresh type codes")
+    _DYN["code"] = _DYN["next"]
+    return _DYN["code"]
+
+
+def rdtype_of(name):
+    if name == "DYN":
+        return dns.rdatatype.RdataType.make(_DYN["code"])
+    return dns.rdatatype.from_text(name)
+
+
+def dyn_wire(c):
+    return bytes([1, 96 + c])  # one character-string
+
+
 def make_item(layer, item):
     rc, rt, cv, c, v = item
     if layer == "set" or rc == "-":
         return Item((rc, rt, cv, c), v)
+    if rt == "DYN":
+        w = dyn_wire(c)
+        if v == 1:  # always the RFC 3597 generic form
+            return dns.rdata.GenericRdata(dns.rdataclass.from_text(rc), rdtype_of(rt), w)
+        # spelling 2: parsed from wire when first used - the registered class once there is one
+        return dns.rdata.from_wire(dns.rdataclass.from_text(rc), rdtype_of(rt), w, 0, len(w))
     if v == 3:  # the same record as spelling 1, held in its generic (RFC 3597) form
         return make_item(layer, (rc, rt, cv, c, 1)).to_generic()
     return dns.rdata.from_text(dns.rdataclass.from_text(rc), dns.rdatatype.from_text(rt), record_text(rt, cv, c, v))
@@ -91,7 +122,7 @@ def make_handle(layer, rec, real):
         obj = dns.set.Set()
     else:
         rc = dns.rdataclass.from_text(rec["rdclass"])
-        rt = dns.rdatatype.from_text(rec["rdtype"])
+        rt = rdtype_of(rec["rdtype"])
         if layer == "rds":
             obj = dns.rdataset.Rdataset(rc, rt, covers_of(rec["covers"]))
         else:
@@ -128,6 +159,8 @@ def project(layer, objs, index, universe):
                        "covers": "NONE" if cv == dns.rdatatype.NONE else dns.rdatatype.to_text(cv),
                        "frozen": isinstance(o, dns.rdataset.ImmutableRdataset)})
     n = len(objs)
+    if callable(universe):
+        universe = universe()
     q = {"eq": [], "ne": [], "sub": [], "sup": [], "dis": [], "len": [], "has": [], "idx": []}
     for a in objs:
         q["eq"].append([tf(lambda: a == b) for b in objs])
@@ -179,9 +212,27 @@ _COPYING = {
 def replay_sets(script, layer, tid):
     init = script[0]["init"]
     universe_items = sorted(tuple(it) for it in script[0]["items"])
-    real = {it: make_item(layer, it) for it in universe_items}
-    index = {id(real[it]): k + 1 for k, it in enumerate(universe_items)}
-    universe = [real[it] for it in universe_items]
+    dyn = any(it[1] == "DYN" for it in universe_items)
+    if dyn:
+        code = fresh_dyn_code()
+    index = {}
+
+    class Reals(dict):
+        def __missing__(self, it):  # created at first use
+            obj = make_item(layer, it)
+            self[it] = obj
+            index[id(obj)] = universe_items.index(it) + 1
+            return obj
+
+    real = Reals()
+    for it in universe_items:
+        if not (dyn and it[4] == 2):
+            real[it]
+    if dyn:  # membership probes are parsed anew for every projection
+        def universe():
+            return [dns.rdata.from_wire(dns.rdataclass.IN, code, dyn_wire(it[3]), 0, 2) for it in universe_items]
+    else:
+        universe = [real[it] for it in universe_items]
     objs = [make_handle(layer, rec, real) for rec in init]
     if layer == "set":
         init_log = [dict(rec, ttl=0, frozen=False) for rec in init]
@@ -201,6 +252,10 @@ def replay_sets(script, layer, tid):
         try:
             if op == "freeze":
                 objs[h] = dns.rdataset.ImmutableRdataset(recv)
+            elif op == "register":
+                name = "DYN%d" % code
+                dns.rdata.register_type(type(name, (dns.rdtypes.txtbase.TXTBase,), {}), code, name,
+                                        is_singleton=bool(a["k"]))
             elif op == "build":
                 seq = list(recv) + list(other)
                 if layer == "set":
